@@ -1320,7 +1320,7 @@ func translateAll(pkgs map[string]*packages.Package, out string) (okKeys []strin
 			}
 			fmt.Fprintf(&b, "  %s : %s%s\n", fn, s.fields[fn], note)
 		}
-		b.WriteString("\n")
+		b.WriteString("deriving Inhabited\n\n")
 	}
 	for _, k := range g.order {
 		b.WriteString(g.decls[k] + "\n")
